@@ -308,6 +308,40 @@ func (e *c33) ruleG7() {
 			})
 		}
 	}
+	// a matcher compiled once under a flag needs the per-row compile under the negated flag, and vice versa
+	type polar struct{ pos, neg token.Pos }
+	pol := map[*c33Fam]map[*types.Var]*polar{}
+	for _, o := range obs {
+		if !strings.HasPrefix(o.what, "the matcher") {
+			continue
+		}
+		if pol[o.fam] == nil {
+			pol[o.fam] = map[*types.Var]*polar{}
+		}
+		pp := pol[o.fam][o.flag]
+		if pp == nil {
+			pp = &polar{}
+			pol[o.fam][o.flag] = pp
+		}
+		if strings.Contains(o.key, " under !") {
+			pp.neg = o.pos
+		} else {
+			pp.pos = o.pos
+		}
+	}
+	for _, fam := range e.fams {
+		for flag, pp := range pol[fam] {
+			key := fam.tn.Name() + "/compiles under " + flag.Name() + " and !" + flag.Name()
+			switch {
+			case !pp.pos.IsValid():
+				c.Bad("C33-G7", key, pp.neg, fmt.Sprintf("%s compiles its matcher only when %s is false: with a cacheable (constant) pattern nothing is ever compiled, the matcher stays nil and the function answers NULL where its siblings match", fam.tn.Name(), flag.Name()))
+			case !pp.neg.IsValid():
+				c.Bad("C33-G7", key, pp.pos, fmt.Sprintf("%s compiles its matcher only when %s holds: with a pattern or match_type that is a column nothing is ever compiled, the matcher stays nil and the function answers NULL where its siblings match", fam.tn.Name(), flag.Name()))
+			default:
+				c.Ok("C33-G7", key, pp.pos, "compiled once under the flag, per row under its negation")
+			}
+		}
+	}
 	// one predicate
 	var pred *types.Func
 	for f, n := range preds {
